@@ -45,6 +45,23 @@ class UserIter(abc.Iterable):
         return iter(self._items)
 
 
+class UserSizedIter(abc.Iterable):
+    """one-shot iterable that knows its remaining length: Sized and Iterable, but no Collection"""
+    def __init__(self, items=()):
+        self._items = list(items)
+
+    def __len__(self):
+        return len(self._items)
+
+    def __iter__(self):
+        return self
+
+    def __next__(self):
+        if not self._items:
+            raise StopIteration
+        return self._items.pop(0)
+
+
 class UserCont(abc.Container):
     """container that is neither iterable nor sized"""
     def __init__(self, items=()):
@@ -138,6 +155,7 @@ CLASSES = [
     ('ValuesView', abc.ValuesView), ('ItemsView', abc.ItemsView), ('Callable', abc.Callable),
     ('UserSeq', UserSeq), ('UserColl', UserColl), ('UserIter', UserIter), ('UserCont', UserCont),
     ('UserMap', UserMap), ('UserList', UserList), ('UserA', UserA), ('UserB', UserB), ('UserC', UserC),
+    ('UserSizedIter', UserSizedIter),
 ]
 CLS = dict(CLASSES)
 CLS_ID = {n: i for i, (n, _) in enumerate(CLASSES)}
@@ -246,6 +264,7 @@ def make_spy_classes(spy):
     out['UserSeq'] = mk(UserSeq, 'UserSeq', iterable=False)
     out['UserColl'] = mk(UserColl, 'UserColl', indexable=False)
     out['UserIter'] = mk(UserIter, 'UserIter', sized=False, indexable=False)
+    out['UserSizedIter'] = mk(UserSizedIter, 'UserSizedIter', indexable=False)
     out['UserMap'] = mk(UserMap, 'UserMap', mapping=True)
     return out
 
